@@ -546,7 +546,9 @@ func TestVerifC07Small(t *testing.T) {
 	budgetFor := func(p vc07Pair) int {
 		union, twoWay := len(p.Shape), p.A&^p.B != 0 && p.B&^p.A != 0
 		if !r.Thorough() {
-			if union <= 3 || !twoWay {
+			// quick: one fault for every pair up to a union of 3 (all four one-way graphs have the same size for every
+			// larger union: 1 805 states / 5 250 transitions unsplit, measured), fault-free search for the unions of 4
+			if union <= 3 {
 				return 1
 			}
 			return 0
